@@ -348,8 +348,9 @@ class FreeEnergy(InterpolatableFunction):
             while ode.status == "running":
                 try:
                     ode.step()
-                except RuntimeWarning as error:
-                    logging.error(error.args[0] + f" at T={ode.t}")
+                except (RuntimeWarning, np.linalg.LinAlgError) as error:
+                    # a singular Hessian means the minimum is about to disappear
+                    logging.error(str(error) + f" at T={ode.t}")
                     break
                 if paranoid:
                     phaset, potentialEffT = self.effectivePotential.findLocalMinimum(
